@@ -122,6 +122,11 @@ fn matched_quantities_with_split_ratio(
     available_at_buy_time: Decimal,
     cumulative_ratio_effect: Decimal,
 ) -> (Decimal, Decimal) {
+    // An extreme UNSPLIT ratio can underflow the cumulative ratio to zero: nothing of the
+    // later purchase can then be expressed in the sale's units, so nothing is matched.
+    if cumulative_ratio_effect == Decimal::ZERO {
+        return (Decimal::ZERO, Decimal::ZERO);
+    }
     let available_at_sell_time = available_at_buy_time / cumulative_ratio_effect;
     let matched_qty_at_sell_time = remaining_at_sell_time.min(available_at_sell_time);
     // Converting back can overshoot by a rounding unit when the ratio is not exactly
